@@ -226,7 +226,7 @@ class World:
             arg = _oset(objs)
             return arg, list(arg)
         if how == "frozenset":
-            arg = frozenset(objs)
+            arg = _ofrozenset(objs)
             return arg, list(arg)
         if how == "iter":
             return iter(list(objs)), list(objs)
@@ -307,7 +307,7 @@ class World:
                 for c in part:
                     self.model_attach(kind, c, pi)
         elif f in ("ior", "iand", "isub", "ixor"):
-            other = _oset(objs) if how != "frozenset" else frozenset(objs)
+            other = _oset(objs) if how != "frozenset" else _ofrozenset(objs)
             before = coll
             if f == "ior":
                 coll |= other
@@ -510,6 +510,153 @@ class World:
             settle([])
         else:
             raise ValueError("list op %r" % f)
+
+    # ---- non-mutating operations (C16) ------------------------------------
+    def do_setq(self, op):
+        import collections.abc as abc
+
+        kind = op["k"]
+        pkind = PARENT_KIND[kind]
+        pi = op["p"] % self.n(pkind)
+        coll = getattr(self.obj(pkind, pi), COLL_ATTR[kind])
+        members = set(self.children(pkind, pi, kind))
+        nk = self.n(kind)
+        cs = [c % nk for c in op.get("cs", [])]
+        f = op["f"]
+        how = op.get("as", "set")
+        if how == "wrapper":
+            qi = op.get("q", 0) % self.n(pkind)
+            other = getattr(self.obj(pkind, qi), COLL_ATTR[kind])
+            okeys = set(self.children(pkind, qi, kind))
+        elif how == "frozenset":
+            other = _ofrozenset([self.obj(kind, c) for c in cs])
+            okeys = set(cs)
+        else:
+            other = _oset([self.obj(kind, c) for c in cs])
+            okeys = set(cs)
+
+        def idxs(result):
+            return [self.index_of(kind, o) for o in result]
+
+        if f == "contains":
+            for c in cs[:2]:
+                if (self.obj(kind, c) in coll) is not (c in members):
+                    self.failf("refine:set.contains", "%s%d in %s%d.%s" % (kind, c, pkind, pi, COLL_ATTR[kind]))
+            if ("x" in coll) is not False or (None in coll) is not False:
+                self.failf("refine:set.contains-foreign-object", "")
+        elif f == "len":
+            if len(coll) != len(members) or bool(coll) is not bool(members):
+                self.failf("refine:set.len", "%d vs %d" % (len(coll), len(members)))
+        elif f == "iter":
+            got = idxs(coll)
+            if len(got) != len(set(got)) or set(got) != members:
+                self.failf("refine:set.iter", "%r vs %r" % (got, members))
+        elif f in ("eq", "ne", "le", "lt", "ge", "gt", "isdisjoint"):
+            import operator
+
+            if f == "isdisjoint":
+                got = coll.isdisjoint(other)
+                want = members.isdisjoint(okeys)
+            else:
+                fn = getattr(operator, f)
+                if op.get("refl"):
+                    got = fn(other, coll)
+                    want = fn(okeys, members)
+                else:
+                    got = fn(coll, other)
+                    want = fn(members, okeys)
+            if got is not want:
+                self.failf("refine:set.compare-" + f, "%s%d.%s %s %r: %r, built-in says %r" % (pkind, pi, COLL_ATTR[kind], f, sorted(okeys), got, want))
+        elif f in ("or", "and", "sub", "xor"):
+            import operator
+
+            fn = getattr(operator, f + "_" if f in ("or", "and") else f)
+            if op.get("refl"):
+                got = fn(other, coll)
+                want = fn(okeys, members)
+            else:
+                got = fn(coll, other)
+                want = fn(members, okeys)
+            if not isinstance(got, abc.Set):
+                self.failf("refine:set.operator-result-type", "%s -> %r" % (f, type(got)))
+            else:
+                gi = idxs(got)
+                if len(gi) != len(set(gi)) or set(gi) != want:
+                    self.failf(
+                        "refine:set.operator-" + f + ("-reflected" if op.get("refl") else ""),
+                        "%s%d.%s %s %r = %r, built-in says %r" % (pkind, pi, COLL_ATTR[kind], f, sorted(okeys), sorted(gi), sorted(want)),
+                    )
+                if hasattr(got, "_node"):
+                    self.failf("refine:set.operator-result-owns-nodes", "%s -> %r" % (f, type(got)))
+        else:
+            raise ValueError("setq %r" % f)
+
+    def do_listq(self, op):
+        ii = op["i"] % self.n("ir")
+        lst = self.obj("ir", ii).modules
+        model = list(self.order[ii])
+        mobjs = [self.obj("mod", m) for m in model]
+        f = op["f"]
+        a = op.get("a", 0)
+        nm = self.n("mod")
+        ms = [m % nm for m in op.get("ms", [])]
+
+        def same(got, want, what):
+            if type(got) is not type(want) and not (isinstance(got, list) and isinstance(want, list)):
+                self.failf("refine:list." + what + "-type", "%r vs %r" % (type(got), type(want)))
+            elif len(got) != len(want) or any(x is not y for x, y in zip(got, want)):
+                self.failf("refine:list." + what, "%r vs %r" % ([self.index_of("mod", x) for x in got], [self.index_of("mod", x) for x in want]))
+
+        if f == "getitem":
+            try:
+                got = lst[a]
+                e = None
+            except Exception as ex:  # noqa
+                e = ex
+            if -len(model) <= a < len(model):
+                if e is not None or got is not mobjs[a]:
+                    self.failf("refine:list.getitem", "%r -> %r %r" % (a, e, None if e else self.index_of("mod", got)))
+            elif not isinstance(e, IndexError):
+                self.failf("refine:list.getitem-out-of-range-no-IndexError", "%r -> %r" % (a, e))
+        elif f == "getslice":
+            sl = _slice(op)
+            got = lst[sl]
+            if isinstance(got, type(lst)):
+                self.failf("refine:list.slice-returns-owning-list", repr(type(got)))
+            else:
+                same(list(got), mobjs[sl], "getslice")
+        elif f in ("index", "count", "contains"):
+            if not ms:
+                raise Skip()
+            mo = self.obj("mod", ms[0])
+            if f == "count":
+                if lst.count(mo) != mobjs.count(mo):
+                    self.failf("refine:list.count", "")
+            elif f == "contains":
+                if (mo in lst) is not (mo in mobjs) or ("x" in lst) is not False:
+                    self.failf("refine:list.contains", "")
+            else:
+                try:
+                    want = mobjs.index(mo)
+                    wexc = None
+                except ValueError as ex:
+                    want, wexc = None, ex
+                try:
+                    got = lst.index(mo)
+                    gexc = None
+                except Exception as ex:  # noqa
+                    got, gexc = None, ex
+                if (wexc is None) != (gexc is None) or got != want or (gexc is not None and not isinstance(gexc, ValueError)):
+                    self.failf("refine:list.index", "%r/%r vs %r/%r" % (got, gexc, want, wexc))
+        elif f == "iter":
+            same(list(iter(lst)), mobjs, "iter")
+        elif f == "reversed":
+            same(list(reversed(lst)), list(reversed(mobjs)), "reversed")
+        elif f == "len":
+            if len(lst) != len(mobjs) or bool(lst) is not bool(mobjs):
+                self.failf("refine:list.len", "%d vs %d" % (len(lst), len(mobjs)))
+        else:
+            raise ValueError("listq %r" % f)
 
     def index_of(self, kind, o):
         for i, x in enumerate(self.objs[kind]):
@@ -737,6 +884,10 @@ class World:
                 self.do_payload(op)
             elif name == "newsym":
                 self.do_newsym(op)
+            elif name == "setq":
+                self.do_setq(op)
+            elif name == "listq":
+                self.do_listq(op)
             else:
                 raise ValueError("unknown op %r" % name)
             return True
@@ -992,6 +1143,18 @@ class _oset(set):
     def __init__(self, items):
         super().__init__(items)
         self._order = list(dict.fromkeys(items))
+
+    def __iter__(self):
+        return iter(self._order)
+
+
+class _ofrozenset(frozenset):
+    """frozenset with the harness' insertion order as iteration order"""
+
+    def __new__(cls, items):
+        self = super().__new__(cls, items)
+        self._order = list(dict.fromkeys(items))
+        return self
 
     def __iter__(self):
         return iter(self._order)
